@@ -158,8 +158,8 @@ func init() {
 	})
 	property(&Property{
 		ID:      "C16",
-		Rules:   []string{"OR-1", "T12", "T-ast", "T-orlist", "T-astref", "T-astrules"},
-		Explain: "T-astrules: collectASTRules lists one entry per written rule, under its own name, in insertion order, for every order of three rules (the types list rendered under or). T-astref: a type-shortcut node's AST Value is its stored source text on every path. T-orlist: the or / type-shortcut list records every alternative as written, repeats included. OR-1: inside the once-only loader the call that builds the AST dominates loader.CompileBasic, load() dominates CompileAllOf/AddUnnamedTypes/the checkers in the once-only compiler, and GetAST returns the field the built tree is stored to — the AST mirrors the text because it is taken before any compilation step rewrites or deletes constraints. T12: the declared-or-inferred schema type of a node, judged on all 16 combinations of the indicators enum/or/type/precision and every JSON kind: enum => enum, or => mixed, type => its value, precision alone => decimal, none => the JSON kind.",
+		Rules:   []string{"OR-1", "T12", "T-ast", "T-orlist", "T-astref", "T-astrules", "T-note"},
+		Explain: "T-note: the note text of an annotation is stored on the loader's current node exactly once whenever there is one, whatever else the loader knows. T-astrules: collectASTRules lists one entry per written rule, under its own name, in insertion order, for every order of three rules (the types list rendered under or). T-astref: a type-shortcut node's AST Value is its stored source text on every path. T-orlist: the or / type-shortcut list records every alternative as written, repeats included. OR-1: inside the once-only loader the call that builds the AST dominates loader.CompileBasic, load() dominates CompileAllOf/AddUnnamedTypes/the checkers in the once-only compiler, and GetAST returns the field the built tree is stored to — the AST mirrors the text because it is taken before any compilation step rewrites or deletes constraints. T12: the declared-or-inferred schema type of a node, judged on all 16 combinations of the indicators enum/or/type/precision and every JSON kind: enum => enum, or => mixed, type => its value, precision alone => decimal, none => the JSON kind.",
 		Assume: []string{
 			"field-by-field content of AST nodes, rule order and nested items, comment attachment and the generated/manual marking are not decided",
 		},
@@ -232,8 +232,8 @@ func init() {
 	})
 	property(&Property{
 		ID:      "C09",
-		Rules:   []string{"UC-1", "OR-2", "VIS-collect", "OR-3", "OR-4", "OR-5", "OR-7", "VIS-rec", "T-rec"},
-		Explain: "T-rec: the recursion checker skips a node only when it carries optional: true or is an array, a literal or a mixed node; type references go to the alternatives check, every property of an object is followed; no other rule is consulted. VIS-rec: the recursion checker follows every property of an object, the visited node being an element of Children() (a walk over the recorded required keys misses key shortcuts). OR-7: the recursion checker descends into a type with the same table of types it found the type in (known finding K8: it hands down the type's own table, so cycles through two or more types go unnoticed). OR-5: a set whose hit is reported as recursion is unwound after the descent, so acyclic diamonds are not mistaken for cycles. OR-4: wherever a function resolves a user type through a type table and descends into it with a call that can come back, a lookup in a visited set or counter dominates the descent (a cycle of type references would otherwise overflow the stack). OR-3: the used-type list is read off the loaded tree inside the once-only loader, before CompileBasic, on every call chain that reaches the walk. VIS-*: the recursive walks (schema checker, allOf compiler, used-type collector) and the loops over the type table reach every child and every type — the visiting call is on every path through the loop body and the loop on every path to a normal return, the only bypasses being a failed comma-ok test and loop exhaustion. UC-1: in the functions reachable from the used-type collector and from the link checker (callback-aware call graph), each carrier of a user-type reference is consulted: the types list (type shortcuts, or), the type rule, allOf, additionalProperties with a user type, key shortcuts and mixed shortcut values; allOf parents are resolved against the type table when inherited properties are copied.",
+		Rules:   []string{"UC-1", "OR-2", "VIS-collect", "OR-3", "OR-4", "OR-5", "OR-7", "VIS-rec", "T-rec", "OR-8"},
+		Explain: "OR-8: a node keeps its allOf rule until its parents have been added (extend dominates the removal), which is what makes an allOf cycle through the schema under check visible. T-rec: the recursion checker skips a node only when it carries optional: true or is an array, a literal or a mixed node; type references go to the alternatives check, every property of an object is followed; no other rule is consulted. VIS-rec: the recursion checker follows every property of an object, the visited node being an element of Children() (a walk over the recorded required keys misses key shortcuts). OR-7: the recursion checker descends into a type with the same table of types it found the type in (known finding K8: it hands down the type's own table, so cycles through two or more types go unnoticed). OR-5: a set whose hit is reported as recursion is unwound after the descent, so acyclic diamonds are not mistaken for cycles. OR-4: wherever a function resolves a user type through a type table and descends into it with a call that can come back, a lookup in a visited set or counter dominates the descent (a cycle of type references would otherwise overflow the stack). OR-3: the used-type list is read off the loaded tree inside the once-only loader, before CompileBasic, on every call chain that reaches the walk. VIS-*: the recursive walks (schema checker, allOf compiler, used-type collector) and the loops over the type table reach every child and every type — the visiting call is on every path through the loop body and the loop on every path to a normal return, the only bypasses being a failed comma-ok test and loop exhaustion. UC-1: in the functions reachable from the used-type collector and from the link checker (callback-aware call graph), each carrier of a user-type reference is consulted: the types list (type shortcuts, or), the type rule, allOf, additionalProperties with a user type, key shortcuts and mixed shortcut values; allOf parents are resolved against the type table when inherited properties are copied.",
 		Assume: []string{
 			"the recursion decision (a least fix-point over arbitrary type graphs), termination of Check/Validate/Example, and exactness/de-duplication of UsedUserTypes are NOT decided by any rule here",
 		},
@@ -244,8 +244,8 @@ func init() {
 	})
 	property(&Property{
 		ID:      "C18",
-		Rules:   []string{"SH-2", "T-enum", "SA-E", "AL-2", "SA-E-deep", "RX-1", "SX-eol-enum", "SX-text-enum", "RX-2", "RX-3"},
-		Explain: "RX-3: the loop that finds the closing slash of /P/, evaluated for both states and all 256 bytes on the SSA form, is the two-state escape automaton, and the pattern taken is the text between the slashes. RX-2: the one-line schema of a regex type is formatted from the type's own Example() and Pattern() results as they are. SX-text-enum: the text of an item note is opaque. SX-eol-enum: an item note of a named enum rule ends at its line break (an empty // used to swallow the next value). RX-1: the example of a regex type is the generator's sample, unchanged. AL-2: the value list a named enum rule hands out (Values) is not rewritten by the loader that copies it into {enum: @E}. SH-2: inline enum lists and named enum rules insert their items through the same constraint.NewEnumItem / (*Enum).Append (shared normalisation and duplicate rejection), and the enum-rule scanner's duplicate key uses the same normalisation steps. SA-E: the enum-rule scanner accepts exactly RFC 8259 arrays of scalars (exponents aside) with the reference event stream, so Values lists the literals in source order with exact spans.",
+		Rules:   []string{"SH-2", "T-enum", "SA-E", "AL-2", "SA-E-deep", "RX-1", "SX-eol-enum", "SX-text-enum", "RX-2", "RX-3", "EN-1"},
+		Explain: "EN-1: the value list of an enum rule only grows by appends onto the whole list; only the note of an entry is filled in afterwards. RX-3: the loop that finds the closing slash of /P/, evaluated for both states and all 256 bytes on the SSA form, is the two-state escape automaton, and the pattern taken is the text between the slashes. RX-2: the one-line schema of a regex type is formatted from the type's own Example() and Pattern() results as they are. SX-text-enum: the text of an item note is opaque. SX-eol-enum: an item note of a named enum rule ends at its line break (an empty // used to swallow the next value). RX-1: the example of a regex type is the generator's sample, unchanged. AL-2: the value list a named enum rule hands out (Values) is not rewritten by the loader that copies it into {enum: @E}. SH-2: inline enum lists and named enum rules insert their items through the same constraint.NewEnumItem / (*Enum).Append (shared normalisation and duplicate rejection), and the enum-rule scanner's duplicate key uses the same normalisation steps. SA-E: the enum-rule scanner accepts exactly RFC 8259 arrays of scalars (exponents aside) with the reference event stream, so Values lists the literals in source order with exact spans.",
 		Assume: []string{
 			"the regex half (Go %q quoting when a regex type is turned into a schema, the third-party example generator, Len of the /P/ token) and the verdict equivalence itself are not decided",
 		},
